@@ -24,7 +24,8 @@ OBSCFG = os.path.join(SPEC, "RegAllocProgObs.cfg")
 TV = os.path.join(SPEC, "RegAlloc.tla")
 TVCFG = os.path.join(SPEC, "RegAlloc.cfg")
 
-ALL_SK = ["straight", "diamond", "loop2", "irreducible", "jtab", "jtabloop", "nested"]
+ALL_SK = ["straight", "diamond", "loop2", "irreducible", "jtab", "jtabloop", "nested", "hdrloop"]
+LOOP_SK = ["loop2", "irreducible", "jtabloop", "nested", "hdrloop"]
 ALL_HZ = ["plain", "fixed", "calls", "mem", "all"]
 
 
@@ -32,11 +33,11 @@ def tla_set(xs):
     return "{" + ", ".join(json.dumps(x) if isinstance(x, str) else str(x) for x in xs) + "}"
 
 
-def gen_cfg(ctx, name, pset, sks, hzs, blen, randomized, qset=(0,)):
+def gen_cfg(ctx, name, pset, sks, hzs, blen, randomized, qset=(0,), wset=(0,)):
     p = ctx.path(name)
     open(p, "w").write(
         "SPECIFICATION Spec\nCONSTANTS\n"
-        f"  PSet = {tla_set(pset)}\n  QSet = {tla_set(qset)}\n  Skeletons = {tla_set(sks)}\n  Hazards = {tla_set(hzs)}\n"
+        f"  PSet = {tla_set(pset)}\n  QSet = {tla_set(qset)}\n  WSet = {tla_set(wset)}\n  Skeletons = {tla_set(sks)}\n  Hazards = {tla_set(hzs)}\n"
         f"  BlockLen = {blen}\n  Randomized = {'TRUE' if randomized else 'FALSE'}\n"
         "INVARIANTS WellDefined Export\n")
     return p
@@ -84,6 +85,23 @@ fix("ra:consecutive-out-overwrites-live-register", 2, r"""
            }
          }
        }
+""")
+
+
+fix("ra:reg-to-mem-narrow-write", 3, r"""
+--- a/asmjit/core/ralocal.cpp
++++ b/asmjit/core/ralocal.cpp
+@@ -635,7 +635,9 @@ Error RALocalAllocator::alloc_instruction(InstNode* node) noexcept {
+             uint32_t op_index = Support::ctz(tied_reg->use_rewrite_mask()) / uint32_t(sizeof(Operand) / sizeof(uint32_t));
+             uint32_t rm_size = tied_reg->rm_size();
+ 
+-            if (rm_size <= work_reg->virt_reg()->virt_size()) {
++            // A written operand can only be patched when the memory form writes the whole register - a narrower
++            // write to a register may extend (X86 32-bit writes zero the upper half), the same write to memory doesn't.
++            if (rm_size <= work_reg->virt_reg()->virt_size() && (!tied_reg->is_write() || rm_size == work_reg->virt_reg()->virt_size())) {
+               Operand& op = node->operands()[op_index];
+               op = _pass.work_reg_as_mem(work_reg);
+ 
 """)
 
 
@@ -227,15 +245,22 @@ def leg2(ctx, bdir):
         progs += export_programs(ctx, r, 1)
         ctx.log(f"exhaustive enumeration: {len(progs)} programs, {r.distinct} states")
     # (b) simulation: skeleton x pressure x hazard mix
+    # (name, GP pressures, block length, programs, vector pressures, 64-bit register counts, skeletons)
     plan = [
-        ("lo", list(range(1, 15)), 6, 52 if q else 500, (0,)),
-        ("mid", list(range(12, 41)), 5, 60 if q else 700, (0,)),
-        ("vec", [3, 6, 10, 14, 20], 5, 48 if q else 700, (4, 10, 15, 17, 20, 30, 40)),
+        ("lo", list(range(1, 15)), 6, 44 if q else 500, (0,), (0,), ALL_SK),
+        ("mid", list(range(12, 41)), 5, 48 if q else 700, (0,), (0,), ALL_SK),
+        ("vec", [3, 6, 10, 14, 20], 5, 40 if q else 600, (4, 10, 15, 17, 20, 30, 40), (0,), ALL_SK),
+        # 64-bit registers with mixed-width writes (32-bit writes zero-extend, 8/16-bit writes do not) under GP pressure
+        ("wide", [5, 8, 11, 14, 20], 6, 48 if q else 600, (0,), (3, 5, 8, 12, 16), ALL_SK),
+        # more than 64 block-crossing registers (multi-word live sets) in loops with multi-block bodies, incl. registers
+        # that are read only in the loop header
+        ("hdr", [66, 72, 90, 110, 130], 4, 12 if q else 120, (0,), (0, 4), ["hdrloop"]),
+        ("hi", [70, 85, 100, 130], 4, 16 if q else 150, (0,), (0,), LOOP_SK + ["diamond", "jtab"]),
     ]
     if not q:
-        plan.append(("hi", [48, 64, 96, 128, 160, 200], 6, 150, (0, 24)))
-    for name, pset, blen, num, qset in plan:
-        cfg = gen_cfg(ctx, f"gen_{name}.cfg", pset, ALL_SK, ALL_HZ, blen, True, qset)
+        plan.append(("vhi", [48, 64, 96, 160, 200], 6, 120, (0, 24), (0, 6), ALL_SK))
+    for name, pset, blen, num, qset, wset, sks in plan:
+        cfg = gen_cfg(ctx, f"gen_{name}.cfg", pset, sks, ALL_HZ, blen, True, qset, wset)
         workers = 4
         r = vlib.run_tlc(ctx, GEN, cfg, workers=workers, timeout=600, heap="4g", tag=f"gen_{name}",
                          simulate=max(1, num // workers), depth=6000, seed=ctx.seed)
@@ -386,7 +411,7 @@ def leg1(ctx, bdir, progs):
     total, unsupported, rejected = 0, {}, 0
     # x86-32: functions with xmm registers need a dynamically aligned frame (not supported by the translator): not recorded
     pp32 = ctx.path("leg1_programs_x86.ndjson")
-    vlib.write_ndjson(pp32, [p for p in progs if len(p["meta"]) < 4 or p["meta"][3] == 0])
+    vlib.write_ndjson(pp32, [p for p in progs if all(x == 0 for x in p["meta"][3:5])])     # no xmm, no 64-bit registers
     for arch in ARCHS:
         fns, why, n = record_and_translate(ctx, exe, arch, pp32 if arch == "x86" else pp, "leg1")
         if why.get("CRASH"):
